@@ -483,7 +483,7 @@ def check_C07(tier):
     cp = c.case_path("C07")
     c.mc("Token", "MC_C07.cfg", dict(Size="quick" if q else "thorough", Deviations="{}", Emit="Emit"), timeout=1500, case_file=cp,
          label="construct -> seal -> unseal -> compare over option sets x special value classes x algorithm x codec x decoder")
-    for dev in ["TimestampBoundOnDecodeOnly", "DagJsonIntegralFloat"]:
+    for dev in ["TimestampBoundOnDecodeOnly", "DagJsonIntegralFloat", "DagJsonInvalidUtf8"]:
         c.mc("Token", "MC_C07.cfg", dict(Size="thorough", Deviations='{"%s"}' % dev, Emit=""), expect_violation="RoundTrip",
              label="sensitivity: " + dev)
     life_part(c, "C07", q)
